@@ -15,6 +15,8 @@ Line protocol of the C11 driver (one output line per input line).
   read                                     -> msg <id> | err <kind>
   extract                                  -> msgs <id,id,..|->
   close                                    -> ok
+  bread                                    -> msg <id> | err <kind>   (read_message_blocking_timeout)
+  bw <id> <segs> <k1,k2,..|->              -> ok | err <kind>         (write_message in blocking mode)
   drain <rounds>                           -> drained <id,..|-> <last error kind>
   rawgood <id> <segs>                      -> n <len>   (raw + declares segs[8..] good)
 
@@ -63,6 +65,7 @@ def errStr : Err → String
   | .nothingRead => "nothing"
   | .invalid => "invalid"
   | .write => "write"
+  | .timeout => "timeout"
 
 structure DState where
   sys : Sys
@@ -91,6 +94,11 @@ def declare (d : DState) (id : String) (p : Bytes) : DState :=
 
 def apply (d : DState) (op : Op) : DState × List String :=
   let (s1, o) := step d.decodes d.sys op
+  let d1 := { d with sys := s1 }
+  (d1, [outStr d1 o])
+
+def applyX (d : DState) (op : XOp) : DState × List String :=
+  let (s1, o) := xstep d.decodes d.sys op
   let d1 := { d with sys := s1 }
   (d1, [outStr d1 o])
 
@@ -139,6 +147,11 @@ def stepLine (d : DState) (line : String) : DState × List String :=
     | none => (d, ["bad-op"])
   | ["wpause", _] => (d, ["paused"])
   | ["wstop"] => (d, ["alive left=" ++ toString d.wq.length])
+  | ["bread"] => applyX d .bread
+  | ["bw", id, segs, sched] =>
+    match parseSegs segs, parseSched sched with
+    | some p, some l => applyX (declare d id p) (.bwrite p l)
+    | _, _ => (d, ["bad-op"])
   | ["readable"] => apply d .readable
   | ["read"] => apply d .read
   | ["extract"] => apply d .extract
